@@ -305,8 +305,8 @@ func evalC18Wire(c *peCase) evalResult {
 	}
 	o := res.AMF.Obs
 	cfg := c.Cfg
-	if o.GNBIDBits != int(cfg.GnbBitLen) || o.GNBID != hex.EncodeToString([]byte(cfg.GnbID)) {
-		return fail("gnb_id", "NG Setup announces gNB id %s/%d bits, configured gnb_id %x gnb_bitlength %d", o.GNBID, o.GNBIDBits, cfg.GnbID, cfg.GnbBitLen)
+	if o.GNBIDBits != int(cfg.GnbBitLen) || o.GNBID != hex.EncodeToString(cfg.gnbOctets()) {
+		return fail("gnb_id", "NG Setup announces gNB id %s/%d bits, configured gnb_id %x gnb_bitlength %d", o.GNBID, o.GNBIDBits, cfg.gnbOctets(), cfg.GnbBitLen)
 	}
 	if !o.HasGNBName || o.GNBName != cfg.GnbName {
 		return fail("gnb_name", "NG Setup announces RAN node name %q (present %v), configured gnb_name %q", o.GNBName, o.HasGNBName, cfg.GnbName)
